@@ -348,6 +348,41 @@ def main():
                 report['forms'][rel][trait] += 1
             except (Untranslatable, IndexError, KeyError, AttributeError) as ex:
                 report['untranslated'].append('%s: %s' % (label, ex))
+    # `impl From<u128 | u64 | u32 | u16 | u8 | bool> for Fq | Fr | Fp`: the integer n goes to `from_le_limbs` of its 64-bit limbs
+    # (`as u64` = mod 2^64, `>> 64` = div 2^64), narrower types via `u128::from(other).into()` (= the u128 form)
+    intforms = []
+    for rel in FIELD_FILES:
+        try:
+            src = open(os.path.join(repo, rel)).read()
+        except OSError:
+            continue
+        for m in re.finditer(r'\bimpl\s+From\s*<\s*(u128|u64|u32|u16|u8|bool)\s*>\s+for\s+(Fq|Fr|Fp)\s*\{\s*fn\s+from\s*\(\s*(\w+)\s*:\s*\w+\s*\)\s*->\s*Self\s*\{(.*?)\}\s*\}', src, re.S):
+            ity, fld, var, body = m.groups()
+            label = '%s:%d From<%s> for %s' % (rel, src[:m.start()].count('\n') + 1, ity, fld)
+            b = re.sub(r'//[^\n]*', '', body).strip()
+            mm = re.fullmatch(r'Self::from_le_limbs\(\s*\[(.*)\]\s*\)', b, re.S)
+            try:
+                if mm:
+                    limbs = []
+                    for part in [x.strip() for x in mm.group(1).split(',') if x.strip()]:
+                        if part == '%s as u64' % var:
+                            limbs.append('n % 2 ^ 64')
+                        elif re.fullmatch(r'\(\s*%s\s*>>\s*(\d+)\s*\)\s*as\s+u64' % var, part):
+                            sh = int(re.fullmatch(r'\(\s*%s\s*>>\s*(\d+)\s*\)\s*as\s+u64' % var, part).group(1))
+                            limbs.append('n / 2 ^ %d %% 2 ^ 64' % sh)
+                        elif re.fullmatch(r'\d+', part):
+                            limbs.append(part)
+                        else:
+                            raise Untranslatable('limb expression %s' % part)
+                    intforms.append((label, 'fun fromLimbs n => fromLimbs [%s]' % ', '.join(limbs)))
+                elif b == 'u128::from(%s).into()' % var:
+                    intforms.append((label, ('via', fld)))
+                else:
+                    raise Untranslatable('body %s' % b[:60])
+                report['forms'].setdefault(rel, {}).setdefault('From<int>', 0)
+                report['forms'][rel]['From<int>'] += 1
+            except Untranslatable as ex:
+                report['untranslated'].append('%s: %s' % (label, ex))
     ty = {'add': 'G → G → G', 'sub': 'G → G → G', 'neg': 'G → G', 'mul': 'ℕ → G → G'}
     parts = ['/- GENERATED by translator/extract_opforms.py from the Rust sources of the repository; do not edit. -/',
              'import Mathlib.Algebra.Group.Defs', 'import Mathlib.Algebra.Group.Basic', 'import Mathlib.Algebra.Field.Defs', '', 'namespace Gen.OpForms', 'variable {G : Type} [AddCommGroup G]', '']
@@ -363,6 +398,22 @@ def main():
         parts.append('def %sForms : List (String × (%s)) := [' % (op, fty[op]))
         parts.append(',\n'.join('  ("%s", %s)' % (l.replace('"', "'").replace('\\', ''), f) for l, f in flists[op]))
         parts.append(']\n')
+    # `u128::from(n).into()` is the `From<u128>` form of the same field: inline it (a widening conversion does not change n)
+    u128of = {l.split(' for ')[-1]: f for l, f in intforms if isinstance(f, str) and 'From<u128>' in l}
+    resolved = []
+    for l, f in intforms:
+        if isinstance(f, tuple):
+            if f[1] in u128of:
+                resolved.append((l, u128of[f[1]]))
+            else:
+                report['untranslated'].append('%s: no From<u128> form of %s to forward to' % (l, f[1]))
+        else:
+            resolved.append((l, f))
+    intforms = resolved
+    parts.append('/-- every `From<integer type>` form of the three fields: (label, fun fromLimbs n => …) with `fromLimbs` = `from_le_limbs` -/')
+    parts.append('def fromIntForms : List (String × ((List Nat → K) → Nat → K)) := [')
+    parts.append(',\n'.join('  ("%s", %s)' % (l, f) for l, f in intforms))
+    parts.append(']\n')
     parts.append('end Gen.FieldOpForms\n\nnamespace Gen.OpForms')
     if report['untranslated']:
         parts.append('/- forms outside the translator\'s grammar (tied by the correspondence check only):')
@@ -375,6 +426,7 @@ def main():
         open(out, 'w').write(text)
     report['counts'] = {op: len(v) for op, v in lists.items()}
     report['field_counts'] = {op: len(v) for op, v in flists.items()}
+    report['field_counts']['from_int'] = len(intforms)
     json.dump(report, open(os.path.splitext(out)[0] + '.index.json', 'w'), indent=1, sort_keys=True)
     print('opforms: %s + field %s translated, %d untranslated' % (report['counts'], report['field_counts'], len(report['untranslated'])))
 
